@@ -316,7 +316,8 @@ def _run_harness(exe, pkg, test, seed, tier, out_path, replay=None, scale=None, 
     if os.path.exists(out_path):
         os.remove(out_path)
     rc, out = run_watched([exe, "-test.run", "^%s$" % test, "-test.count=1", "-test.timeout=%ds" % timeout],
-                          pkgdir, env, timeout + 30, out_path, int(os.environ.get("VERIF_STALL", "420")))
+                          pkgdir, env, timeout + 30, out_path,
+                          min(int(os.environ.get("VERIF_STALL", "420")), 90) if replay else int(os.environ.get("VERIF_STALL", "420")))
     cases = []
     if os.path.exists(out_path):
         for line in open(out_path):
@@ -628,7 +629,7 @@ def main():
                 glist = read_list(tmp + ".jsonl")
                 cops = None
                 if glist:
-                    cops, cimpl, clog = find_culprit(exe, hcfg, glist[len(gcases): len(gcases) + 16], tmp)
+                    cops, cimpl, clog = find_culprit(exe, hcfg, glist[len(gcases): len(gcases) + hcfg.get("workers", 1) + 1], tmp)
                 if cops is not None:
                     cases.append(dict(ops=cops, impl=cimpl, tags=["culprit"]))
                     issues.append(dict(case=len(cases) - 1, step=min(len(cimpl), len(cops) - 1), kind="spec",
